@@ -60,8 +60,8 @@ class Context:
         self.static_models = {}
         self.adt_models = {}
         self.lazy_wrap = False
-        import models_core, models_time, models_coll, models_str, models_sync, models_bytes, models_async
-        for m in (models_core, models_time, models_coll, models_str, models_sync, models_bytes, models_async):
+        import models_core, models_time, models_coll, models_str, models_sync, models_bytes, models_async, t4
+        for m in (models_core, models_time, models_coll, models_str, models_sync, models_bytes, models_async, t4):
             m.install(self)
 
     def fn(self, type_name, method, trait=None, hint=None):
